@@ -210,6 +210,14 @@ def shard(ctx, payload):
     for age in [0] + list(range(1, 35)):
         for c in rng.sample(range(0, hi + 1), n_young):
             do(c, age, ('float',))
+    # (2b) ages in years and months (floats): the band is that of the COMPLETED years - 34.6 is still below the first band,
+    # 39.5 and 39.9 are still V35, 110.7 uses the last band
+    for age in (34.4, 34.6, 34.99, 35.5, 39.5, 39.6, 39.9, 44.5, 49.9, 64.9, 79.51, 109.6, 110.7):
+        if athlon.exact_factor(g, e, age) is None:
+            continue
+        for c in rng.sample(range(0, hi + 1), 12 if not thorough else 60):
+            do(c, age, ('float',))
+    ctx.label('fractional-ages', 1)
     # (3) masters ages: constructed hazards + uniform sample
     n_uni = 3000 if thorough else 300
     cap = 3000 if thorough else 400
